@@ -116,5 +116,6 @@ cdef class QueryHandler:
         object addr,
         object port,
         object transport,
-        tuple v6_flow_scope
+        tuple v6_flow_scope,
+        bint duplicate=*
     )
